@@ -1,6 +1,8 @@
 package main
 
 import (
+	"strconv"
+	"strings"
 	"bytes"
 	"encoding/binary"
 	"errors"
@@ -54,11 +56,18 @@ func runKaitai(args []string) error {
 		case "EMPTY":
 			return []byte{}
 		}
+		if strings.HasPrefix(t, "ZEROS:") { // a payload of n zero bytes (records far above 100 MiB without shipping them through JSON)
+			n, _ := strconv.Atoi(t[len("ZEROS:"):])
+			return make([]byte, n)
+		}
 		return recs[t]
 	}
 	tokNonNil := func(b []byte) string {
 		if len(b) == 0 {
 			return "EMPTY"
+		}
+		if len(b) > 1<<20 && len(bytes.Trim(b, "\x00")) == 0 {
+			return fmt.Sprintf("ZEROS:%d", len(b))
 		}
 		if t, ok := tokOf[string(b)]; ok {
 			return t
